@@ -377,7 +377,10 @@ def norm_cond(disc, kind, vals):
 
 
 PURE_FNS = ('core::slice::<impl [T]>::get_mut', 'core::slice::<impl [T]>::get', 'core::slice::<impl [T]>::len', 'core::slice::<impl [T]>::is_empty',
-            'core::option::Option::<T>::is_none', 'core::option::Option::<T>::is_some', 'core::slice::<impl [T]>::first', 'core::slice::<impl [T]>::last')
+            'core::option::Option::<T>::is_none', 'core::option::Option::<T>::is_some', 'core::slice::<impl [T]>::first', 'core::slice::<impl [T]>::last',
+            'core::option::Option::<&T>::copied', 'core::option::Option::<&T>::cloned', 'core::option::Option::<&mut T>::copied',
+            'core::option::Option::<T>::as_ref', 'core::option::Option::<T>::as_mut', 'core::convert::From::from', 'core::convert::Into::into',
+            'core::slice::<impl [T]>::split_first', 'core::slice::<impl [T]>::split_at')
 
 
 def purify(t):
